@@ -11,6 +11,8 @@ import (
 	"bufio"
 	"bytes"
 	"context"
+	"crypto"
+	"crypto/ed25519"
 	"encoding/json"
 	"errors"
 	"fmt"
@@ -99,6 +101,136 @@ func c13Doc(set []c13Key) []byte {
 	}
 	b, _ := json.Marshal(map[string]any{"keys": entries})
 	return b
+}
+
+// ---------------------------------------------------------------- answers of the endpoint
+
+// c13Bodies: the classes of answers. cur = the key set the endpoint serves, alt = another key set.
+// What a body IS (well-formed as a whole? which key set does it denote?) is not decided here but by c13Oracle.
+var c13Bodies = map[string]func(cur, alt []c13Key) (int, []byte){
+	"ok":    func(cur, alt []c13Key) (int, []byte) { return 200, c13Doc(cur) },
+	"ok-ws": func(cur, alt []c13Key) (int, []byte) { return 200, []byte(" \n\t" + string(c13Doc(cur)) + "\r\n \n") }, // insignificant whitespace
+	"ok-huge": func(cur, alt []c13Key) (int, []byte) {
+		return 200, append(c13Doc(cur), bytes.Repeat([]byte(" \n"), 600000)...)
+	},
+	"ok-casekeys": func(cur, alt []c13Key) (int, []byte) {
+		return 200, bytes.Replace(c13Doc(cur), []byte(`"keys"`), []byte(`"KEYS"`), 1)
+	},
+	"ok-dupkeys": func(cur, alt []c13Key) (int, []byte) { // the member twice: encoding/json takes the last one
+		a, b := c13Doc(alt), c13Doc(cur)
+		return 200, []byte(string(a[:len(a)-1]) + "," + string(b[1:]))
+	},
+	"e5xx":      func(cur, alt []c13Key) (int, []byte) { return 500, []byte("boom") },
+	"e503-jwks": func(cur, alt []c13Key) (int, []byte) { return 503, c13Doc(cur) }, // a perfect key set, but not a 200
+	"e404-jwks": func(cur, alt []c13Key) (int, []byte) { return 404, c13Doc(cur) },
+	"notjson":   func(cur, alt []c13Key) (int, []byte) { return 200, []byte("<html><body>maintenance</body></html>") },
+	"empty":     func(cur, alt []c13Key) (int, []byte) { return 200, nil },
+	"trunc":     func(cur, alt []c13Key) (int, []byte) { d := c13Doc(cur); return 200, d[:len(d)-len(d)/3-1] },
+	"null":      func(cur, alt []c13Key) (int, []byte) { return 200, []byte("null") },
+	"emptyobj":  func(cur, alt []c13Key) (int, []byte) { return 200, []byte("{}") },
+	"keysnull":  func(cur, alt []c13Key) (int, []byte) { return 200, []byte(`{"keys":null}`) },
+	"badjson":   func(cur, alt []c13Key) (int, []byte) { return 200, []byte(`{"keys": 5}`) },
+	"array":     func(cur, alt []c13Key) (int, []byte) { d := c13Doc(cur); return 200, d[len(`{"keys":`) : len(d)-1] }, // the bare array of keys
+	"string":    func(cur, alt []c13Key) (int, []byte) { return 200, []byte(`"keys"`) },
+	"trail-junk": func(cur, alt []c13Key) (int, []byte) {
+		return 200, append(c13Doc(cur), []byte("\n<!-- served by proxy -->")...)
+	},
+	"trail-value": func(cur, alt []c13Key) (int, []byte) { return 200, append(c13Doc(cur), []byte(" 42")...) },
+	"trail-set":   func(cur, alt []c13Key) (int, []byte) { return 200, append(append(c13Doc(cur), '\n'), c13Doc(alt)...) }, // two key sets
+	"trail-half": func(cur, alt []c13Key) (int, []byte) {
+		d := c13Doc(cur)
+		return 200, append(append(d, '\n'), d[:len(d)/2]...)
+	},
+	"trail-brace":  func(cur, alt []c13Key) (int, []byte) { return 200, append(c13Doc(cur), '}') },
+	"alt-then-cur": func(cur, alt []c13Key) (int, []byte) { return 200, append(c13Doc(alt), c13Doc(cur)...) }, // the served set only comes second
+	"bom":          func(cur, alt []c13Key) (int, []byte) { return 200, append([]byte("\xEF\xBB\xBF"), c13Doc(cur)...) },
+	"lead-junk":    func(cur, alt []c13Key) (int, []byte) { return 200, append([]byte(")]}',\n"), c13Doc(cur)...) },
+	"huge-junk":    func(cur, alt []c13Key) (int, []byte) { return 200, bytes.Repeat([]byte("0123456789abcdef"), 70000) },
+}
+
+// weights of the classes in random schedules (per hundred, roughly)
+var c13BodyMix = []struct {
+	cls string
+	w   int
+}{
+	{"ok", 50}, {"ok-ws", 3}, {"ok-huge", 1}, {"ok-casekeys", 1}, {"ok-dupkeys", 2}, {"e5xx", 7}, {"e503-jwks", 4}, {"e404-jwks", 1}, {"notjson", 2}, {"empty", 1},
+	{"trunc", 2}, {"null", 2}, {"emptyobj", 1}, {"keysnull", 2}, {"badjson", 3}, {"array", 1}, {"string", 1}, {"trail-junk", 4}, {"trail-value", 2},
+	{"trail-set", 3}, {"trail-half", 2}, {"trail-brace", 1}, {"alt-then-cur", 1}, {"bom", 2}, {"lead-junk", 1}, {"huge-junk", 1},
+}
+
+func c13PickBody(r *hx.Rand) string {
+	tot := 0
+	for _, b := range c13BodyMix {
+		tot += b.w
+	}
+	x := r.Intn(tot)
+	for _, b := range c13BodyMix {
+		if x < b.w {
+			return b.cls
+		}
+		x -= b.w
+	}
+	return "ok"
+}
+
+// c13Shape: is this JSON value of the JWKS shape as encoding/json reads it, and which entries does it have? (reference decode,
+// independent of the code under test: a struct with a `keys` member of raw entries, each entry through go-jose)
+func c13Shape(v []byte) ([]c13Key, bool) {
+	var d struct {
+		Keys []json.RawMessage `json:"keys"`
+	}
+	if json.Unmarshal(v, &d) != nil {
+		return nil, false
+	}
+	out := []c13Key{}
+	for _, raw := range d.Keys {
+		var hdr struct {
+			Kid string `json:"kid"`
+			Use string `json:"use"`
+			Kty string `json:"kty"`
+		}
+		json.Unmarshal(raw, &hdr)
+		var k jose.JSONWebKey
+		if k.UnmarshalJSON(raw) != nil {
+			out = append(out, c13Key{kid: hdr.Kid, use: hdr.Use, no: -1, kty: "XYZ", known: false})
+			continue
+		}
+		no := -1
+		for i, hk := range hx.Keys() {
+			if eq, ok := hk.Pub.(interface{ Equal(crypto.PublicKey) bool }); ok && eq.Equal(k.Key) {
+				no = i
+			} else if a, ok := hk.Pub.(ed25519.PublicKey); ok {
+				if b, ok := k.Key.(ed25519.PublicKey); ok && a.Equal(b) {
+					no = i
+				}
+			}
+		}
+		if no < 0 {
+			out = append(out, c13Key{kid: k.KeyID, use: k.Use, no: -1, kty: "XYZ", known: false})
+			continue
+		}
+		out = append(out, c13Key{kid: k.KeyID, use: k.Use, no: no, kty: hx.Keys()[no].Kty, known: true})
+	}
+	return out, true
+}
+
+// c13Oracle classifies a body with the real encoding/json: is the WHOLE body one well-formed JSON document (json.Valid), what
+// does it denote if it has the JWKS shape, and what does its FIRST JSON value denote (what a streaming decoder would see)
+func c13Oracle(body []byte) (wf bool, whole, first string) {
+	whole, first = "!", "!"
+	wf = json.Valid(body)
+	if wf {
+		if ks, ok := c13Shape(body); ok {
+			whole = c13SetText(ks)
+		}
+	}
+	var raw json.RawMessage
+	if json.NewDecoder(bytes.NewReader(body)).Decode(&raw) == nil {
+		if ks, ok := c13Shape(raw); ok {
+			first = c13SetText(ks)
+		}
+	}
+	return
 }
 
 type c13Tok struct {
@@ -759,27 +891,25 @@ func c13RunSchedule(r *hx.Rand, caseID string, skip bool, script []string, out i
 		case "resp":
 			f := s.fetches[st.id]
 			kind := sc.resp
-			if !scripted || kind == "" {
+			if _, known := c13Bodies[kind]; !known {
 				kind = "ok"
 				if !scripted {
-					kind = hx.Pick(r, "ok", "ok", "ok", "ok", "ok", "ok", "ok", "e5xx", "e5xx", "badjson")
+					kind = c13PickBody(r)
 				}
 			}
+			alt := []c13Key{c13Pool[1]}
+			if !scripted {
+				alt = world[r.Intn(len(world))]
+			}
+			status, body := c13Bodies[kind](s.served, alt)
+			wf, whole, first := c13Oracle(body)
 			f.ended = true
 			s.running++
-			switch kind {
-			case "ok":
-				f.rel <- c13Resp{200, c13Doc(s.served)}
-			case "e5xx":
-				f.rel <- c13Resp{500, []byte("boom")}
-			default:
-				kind = "badjson"
-				f.rel <- c13Resp{200, []byte(`{"keys": 5}`)}
-			}
+			f.rel <- c13Resp{status, body}
 			f.at = ""
 			s.await()
-			emit(fmt.Sprintf("resp:%d:%s", st.id, kind))
-			stats["resp-"+kind]++
+			emit(fmt.Sprintf("resp:%d:%s:%d:%s:%s:%s", st.id, kind, status, map[bool]string{false: "0", true: "1"}[wf], whole, first))
+			stats["body-"+kind]++
 		case "upd":
 			f := s.fetches[st.id]
 			s.running++
@@ -888,6 +1018,20 @@ var c13Directed = []struct {
 	{"kidless-skip", true, []string{"rot:-.sig.4.EC.1", "start:-:4", "go:0", "go:0", "resp:0:ok", "upd:0", "upd:0", "go:0", "start:-:2", "go:1", "go:1", "resp:1:ok"}},
 	// wrong key under a known kid: rejected from the cache without a refresh
 	{"wrong-key-cached", false, []string{"rot:k1.sig.2.EC.1", "start:k1:2", "go:0", "go:0", "resp:0:ok", "upd:0", "upd:0", "go:0", "start:k1:3", "go:1"}},
+	// malformed answers with status 200: a key set followed by other bytes is NOT a download (nothing accepted, cache kept)
+	{"trailing-junk", false, []string{"rot:k1.sig.2.EC.1", "start:k1:2", "go:0", "go:0", "resp:0:trail-junk", "upd:0", "go:0"}},
+	{"trailing-half-keeps-cache", false, []string{"rot:k1.sig.2.EC.1", "start:k1:2", "go:0", "go:0", "resp:0:ok", "upd:0", "go:0", "rot:k2.sig.3.EC.1",
+		"start:k2:3", "go:1", "go:1", "resp:1:trail-half", "upd:1", "go:1", "rot:k1.sig.2.EC.1", "start:k1:2", "go:2", "go:2", "resp:2:e5xx", "upd:2", "go:2"}},
+	{"two-key-sets", false, []string{"rot:k1.sig.2.EC.1", "start:k1:2", "start:k2:3", "go:0", "go:1", "go:0", "go:1", "resp:0:trail-set", "upd:0", "go:0", "go:1"}},
+	{"second-set-is-the-served-one", false, []string{"rot:k1.sig.2.EC.1", "start:k2:3", "go:0", "go:0", "resp:0:alt-then-cur", "upd:0", "go:0"}},
+	{"bom-and-lead-junk", false, []string{"rot:k1.sig.2.EC.1", "start:k1:2", "go:0", "go:0", "resp:0:bom", "upd:0", "go:0", "start:k1:2", "go:1", "go:1", "resp:1:lead-junk", "upd:1", "go:1"}},
+	// a perfect key set under a status other than 200 is a failed download
+	{"status-503-with-key-set", false, []string{"rot:k1.sig.2.EC.1", "start:k1:2", "go:0", "go:0", "resp:0:e503-jwks", "upd:0", "go:0"}},
+	// well-formed documents: whitespace around it, `keys` twice (the last one counts), null / {} / {"keys":null} = the empty key set
+	{"wellformed-variants", false, []string{"rot:k1.sig.2.EC.1", "start:k1:2", "go:0", "go:0", "resp:0:ok-ws", "upd:0", "go:0", "start:k2:3", "go:1", "go:1", "resp:1:ok-dupkeys", "upd:1", "go:1",
+		"start:k1:2", "go:2", "go:2", "resp:2:null", "upd:2", "go:2", "start:k1:2", "go:3", "go:3", "resp:3:ok-casekeys", "upd:3", "go:3"}},
+	{"wrong-shapes", false, []string{"rot:k1.sig.2.EC.1", "start:k1:2", "go:0", "go:0", "resp:0:array", "upd:0", "go:0", "start:k1:2", "go:1", "go:1", "resp:1:trunc", "upd:1", "go:1",
+		"start:k1:2", "go:2", "go:2", "resp:2:string", "upd:2", "go:2"}},
 	// a waiter's own cancellation fails only itself
 	{"cancel-waiter", false, []string{"rot:k1.sig.2.EC.1", "start:k1:2", "start:k1:2", "go:0", "go:1", "go:0", "go:1", "cancel:1", "go:1", "resp:0:ok"}},
 }
